@@ -13,8 +13,8 @@ import re
 
 from sa.interp import Interp, Scenario, Sym, Const, Bytes, Obj, render, merge_consts
 from sa.loader import AnalysisError, dotted
-from sa.condtab import split_filter, conj, table, atoms, same
-from sa.looppaths import observe, path_cond, any_of, atom_value
+from sa.condtab import split_filter, conj, table, atoms, same, skeleton
+from sa.looppaths import observe, path_cond, any_of, atom_value, fresh_objects, respell
 
 noinline = lambda f: False  # noqa: E731
 
@@ -110,7 +110,7 @@ def export(rep, prog):
                       'exactly the exportable signatures are exported: the filter must keep s.exportable (positive polarity)', where=f.where,
                       expected='if s.exportable', found=conds)
             extra = sorted(atoms(sk) - {E, M})
-            expect = ('and', [('atom', E), ('not', ('atom', M))]) if key_level else ('atom', E)
+            expect = ('and', [skeleton(E), ('not', skeleton(M))]) if key_level else skeleton(E)
             rep.check(not extra and same(sk, expect), 'C14.1', 'PGPKey.__bytearray__', 'other filter terms %s (%s)' % (extra, conds),
                       'no other condition may drop signatures; embedded cross-signatures are skipped only in the key-level list (they live inside their binding)',
                       where=f.where, found=conds)
@@ -214,6 +214,35 @@ def _root(text, stop=None):
     return text
 
 
+_ATTACHED = re.compile(r'\((\((?:\w+|PGPKey\(\)|PGPUID\(\)) \| next\(\$[\d._]+\)\)) \| \(PGPSignature\(\) \| \$[\d._]+\)\)')
+
+
+def unattach(t):
+    """`head |= PGPSignature() | sig` keeps the head object (C14.5 checks that `|` returns its left operand): after the loop over
+    the group's signatures the head is still the head, whichever path of the loop the interpreter summarised."""
+    while True:
+        n = _ATTACHED.sub(r'\1', t)
+        if n == t:
+            return t
+        t = n
+
+
+def _map_sk(sk, fn):
+    if sk is None:
+        return None
+    if sk[0] in ('and', 'or'):
+        return (sk[0], [_map_sk(x, fn) for x in sk[1]])
+    if sk[0] == 'not':
+        return ('not', _map_sk(sk[1], fn))
+    if sk[0] == 'cmp':
+        return ('cmp', sk[1], fn(sk[2]), fn(sk[3]))
+    if sk[0] == 'call':
+        return ('call', fn(sk[1]), [fn(a) for a in sk[2]])
+    if sk[0] == 'expr':
+        return ('expr', fn(sk[1]))
+    return sk
+
+
 HEADS = {'PubKeyV4': 'key', 'PrivSubKeyV4': 'key', 'UserID': 'uid', 'UserAttribute': 'uid'}
 
 
@@ -239,7 +268,7 @@ def grouping(rep, prog):
         trust = prog.cls('pgpy.constants', 'PacketTag').enum_members().get('Trust')
         for t in ('PacketTag.Trust', repr(trust)):
             for a in ('%s.header.tag == %s' % (v, t), '%s == %s.header.tag' % (t, v), '%s.header.typeid == %s' % (v, t)):
-                okf = okf or (bool(conds) and same(conj(conds), ('not', ('atom', a))))
+                okf = okf or (bool(conds) and same(conj(conds), ('not', skeleton(a))))
     rep.check(okf, 'C14.3', 'PGPKey.parse', 'packet stream %s' % stream[:100],
               'Trust packets (keyring-local) must be removed from the packet stream before grouping: a Trust packet that opens a group swallows the '
               'signatures that follow it', where=where, expected='groupby(filter(lambda p: p.header.tag != PacketTag.Trust, ...), ...)')
@@ -256,7 +285,7 @@ def grouping(rep, prog):
 
     def takes_head(events):
         return any(e[0] == 'call' and e[1] == 'next' and e[2][:1] == [G] for e in events)
-    opaque = ('atom', "%s.endswith('Opaque')" % K)
+    opaque = skeleton("%s.endswith('Opaque')" % K)
     for r in gl:
         skipping = [p for p in r.paths if not takes_head(p[2])]
         bad = [p for p in skipping if p[0] not in ('normal', 'continue') or _effects(p[2])]
@@ -271,7 +300,6 @@ def grouping(rep, prog):
     KEYS = keys.pop()
     recent = '%s[next(reversed(%s))]' % (KEYS, KEYS)
     mro = {h: {c.name for c in prog.cls('pgpy.packet.packets', h).mro()} for h in HEADS}
-    own = {'PGPKey': {c.name for c in prog.cls('pgpy.pgp', 'PGPKey').mro()}, 'PGPUID': {c.name for c in prog.cls('pgpy.pgp', 'PGPUID').mro()}}
     seen = set()
     for head, kind in HEADS.items():
         for first in ((True, False) if kind == 'key' else (False,)):
@@ -279,9 +307,6 @@ def grouping(rep, prog):
                 m1 = re.match(r'^isinstance\(next\(%s\), (.+)\)$' % re.escape(G), t)
                 if m1:
                     return any(n in mro[head] for n in re.findall(r'[A-Za-z_]\w*', m1.group(1)))
-                m2 = re.match(r'^isinstance\(\((self|PGPKey\(\)|PGPUID\(\)) \| .*\), (.+)\)$', t)
-                if m2:
-                    return any(n in own['PGPUID' if m2.group(1) == 'PGPUID()' else 'PGPKey'] for n in re.findall(r'[A-Za-z_]\w*', m2.group(2)))
                 return None
             _, rs = observe(prog, f, oracle=oracle, bind={'self._key': Const(None) if first else Sym('self._key', nonnull=True)})
             H = '(%s | next(%s))' % ('PGPUID()' if kind == 'uid' else 'self' if first else 'PGPKey()', G)
@@ -291,16 +316,17 @@ def grouping(rep, prog):
             att_ok = bool(inner)
             detail = 'no loop over the group'
             for r in inner:
+                names = fresh_objects(r.before.events)
                 attaching = [p for p in r.paths if _attach_events(p[2])]
                 others = [p for p in r.paths if not _attach_events(p[2])]
                 want_val = '(PGPSignature() | %s)' % r.var
-                one = all(len(_attach_events(p[2])) == 1 and _root(_attach_events(p[2])[0][0], H) == H and _attach_events(p[2])[0][1] == want_val and
+                one = all(len(_attach_events(p[2])) == 1 and unattach(respell(_attach_events(p[2])[0][0], names)) == H and _attach_events(p[2])[0][1] == want_val and
                           len(_effects(p[2])) <= 1 and p[0] in ('normal', 'continue') for p in attaching)
                 quiet = all(not _effects(p[2]) and p[0] in ('normal', 'continue') for p in others)
                 kept = ('and', [conj(r.conds), any_of(path_cond(p[1]) for p in attaching)])
                 detail = 'each %s in group%s: %s' % (r.var, ''.join(' if ' + c for c in r.conds),
                                                       [([x[0] if x[1] else 'not ' + x[0] for x in p[1]], _attach_events(p[2])) for p in attaching])
-                att_ok = att_ok and bool(attaching) and one and quiet and same(kept, ('not', ('atom', 'isinstance(%s, Opaque)' % r.var)))
+                att_ok = att_ok and bool(attaching) and one and quiet and same(kept, ('not', skeleton('isinstance(%s, Opaque)' % r.var)))
             if (kind, first, 'att', att_ok, detail) not in seen:
                 seen.add((kind, first, 'att', att_ok, detail))
                 rep.check(att_ok, 'C14.3', 'PGPKey.parse', 'signature attachment (%s) %s' % (scen, detail[:300]),
@@ -312,8 +338,10 @@ def grouping(rep, prog):
                 if not taking:
                     raise AnalysisError('PGPKey.parse: no path takes the head packet of a group with next(group)')
                 for status, facts, events, _ in taking:
-                    filed = [(e[1], e[2]) for e in events if e[0] == 'store' and e[1].startswith(KEYS + '[')]
-                    filed = [(pth, val.replace('(%s | (PGPSignature() | ' % H, '\0').split('\0')[0] if val.startswith('(%s | (PGPSignature() | ' % H) else val) for pth, val in filed]
+                    names = fresh_objects(r.before.events + events)
+                    norm = lambda t: unattach(respell(t, names))  # noqa: E731
+                    filed = [(norm(e[1]), norm(e[2])) for e in events if e[0] == 'store' and e[1].startswith(KEYS + '[')]
+                    facts = [(norm(t), v, _map_sk(sk, norm)) for t, v, sk in facts]
                     primary = atom_value(facts, '%s.is_primary' % H) if kind == 'key' else False
                     if primary is True:
                         want = [('%s[(%s.fingerprint.keyid, %s.is_public)]' % (KEYS, H, H), H)]
@@ -432,7 +460,7 @@ def copies(rep, prog):
             if attr in cols:
                 clean, left_out, desc, elem = cols[attr]
                 # only embedded signatures may be skipped (they are re-derived from their binding signature when it is attached)
-                ok = same(left_out, ('const', False)) or (attr == '_signatures' and same(left_out, ('atom', '%s.embedded' % elem)))
+                ok = same(left_out, ('const', False)) or (attr == '_signatures' and same(left_out, skeleton('%s.embedded' % elem)))
                 rep.check(ok, 'C14.4', 'PGPKey.__copy__', 'left out of %s: %s' % (attr, desc or 'nothing'),
                           'only embedded cross-signatures may be left out of a copy', where=f.where)
     A = prog.cls('pgpy.types', 'Armorable')
@@ -450,8 +478,7 @@ def copies(rep, prog):
     outs, recs = observe(prog, uf)
     for s in outs:
         root = _fresh_copy_root(s, 'PGPUID')
-        # a locally constructed object renders as the local it was first bound to; parameters render as themselves
-        fresh = re.match(r'^\w+$', root or '') is not None and root not in uf.params and sum(1 for c in s.calls if c[0] == U.name and not c[1]) == 1
+        fresh = fresh_objects(s.events).get(root) == '%s()' % U.name or root == '%s()' % U.name
         pk = [e for e in _attach_events(s.events) if _root(e[0]) == root and e[1] == 'copy.copy(%s._uid)' % uf.params[0]]
         cols = _copy_loops(recs, uf.params[0], root)
         sigs = '_signatures' in cols and cols['_signatures'][0] and same(cols['_signatures'][1], ('const', False))
